@@ -1805,7 +1805,8 @@ bool TypeChecker::checkExpression(expression_t expr)
     }
 
     case NUMOF: {
-        template_t* temp = document.find_dynamic_template(expr[0].get_symbol().get_name());
+        template_t* temp =
+            expr[0].get_symbol() == symbol_t() ? nullptr : document.find_dynamic_template(expr[0].get_symbol().get_name());
         if (temp) {
             type = type_t::create_primitive(Constants::INT);
         } else {
